@@ -1,16 +1,17 @@
 """Run every claimed check (quick or thorough) on the current tree, in parallel. Usage: python -m harness.runall [--tier thorough] [-j N]"""
-import json, subprocess, sys, time
+import json, os, subprocess, sys, time
+ROOT = os.path.dirname(os.path.dirname(os.path.abspath(__file__)))
 from concurrent.futures import ThreadPoolExecutor
 
 def main():
     tier = "thorough" if "--tier=thorough" in sys.argv or "thorough" in sys.argv else "quick"
     j = 4
-    man = json.load(open("/verif/MANIFEST.json"))
+    man = json.load(open(os.path.join(os.path.dirname(os.path.dirname(os.path.abspath(__file__))), "MANIFEST.json")))
     ids = [c["property_id"] for c in man["checks"]]
-    subprocess.run("cd /verif && ./check --setup", shell=True, stdout=subprocess.DEVNULL)
+    subprocess.run("cd %s && ./check --setup" % ROOT, shell=True, stdout=subprocess.DEVNULL)
     def one(p):
         t = time.time()
-        r = subprocess.run("cd /verif && ./check %s --tier %s" % (p, tier), shell=True, stdout=subprocess.PIPE, stderr=subprocess.STDOUT, text=True)
+        r = subprocess.run("cd %s && ./check %s --tier %s" % (ROOT, p, tier), shell=True, stdout=subprocess.PIPE, stderr=subprocess.STDOUT, text=True)
         lines = [l for l in r.stdout.splitlines() if l.startswith(("VIOLATION", "KNOWN-FINDING", "["))]
         return p, r.returncode, lines, time.time() - t
     bad = 0
